@@ -48,7 +48,7 @@ Section Shape.
   Lemma compress_range_shape (es : list (entry V)) f l vals :
     wf_entries V es -> In (f, l, vals) (snd (compress link mkvals es)) ->
     exists k a b vs, f = k ++ [a] /\ l = k ++ [b] /\ a <= b /\ vals = mkvals vs /\
-                     (forall v, In v vs -> exists c, In (c, v) es).
+                     (forall v, In v vs -> exists c, In (c, v) es) /\ (length vs <= 256)%nat.
   Proof.
     intros Hwf Hin. unfold compress in Hin. cbn [snd] in Hin.
     set (sorted := sort_entries es) in *.
@@ -57,13 +57,17 @@ Section Shape.
     assert (Hok : Forall (run_ok V link) (build_runs link sorted)) by (apply build_runs_ok; [assumption|apply sort_sorted]).
     unfold ranges_of in Hin. apply in_flat_map in Hin as (rn & Hrn & Hin).
     destruct (run_range_spec V mkvals rn f l vals Hin) as (a & b & items & Hs & -> & -> & ->).
-    rewrite Forall_forall in Hok. destruct (Hok rn Hrn) as (_ & Hc & _).
+    rewrite Forall_forall in Hok. destruct (Hok rn Hrn) as (Hne & Hc & Hf).
     rewrite Hs in *. exists (fst rn), (fst a), (fst (last (a :: b :: items) a)), (map snd (a :: b :: items)).
-    repeat split; auto.
+    assert (Hlast : fst a + N.of_nat (length (b :: items)) < 256).
+    { rewrite <- (consec_last V link a (b :: items) a Hc). rewrite Forall_forall in Hf. apply Hf.
+      apply (@exists_last _ (a :: b :: items)) in Hne as (l' & z & E'). rewrite E', last_last. apply in_or_app. right. left. reflexivity. }
+    split; [reflexivity|]. split; [reflexivity|]. split; [|split; [reflexivity|split]].
     - rewrite (consec_last V link a (b :: items) a Hc). lia.
     - intros v Hv. apply in_map_iff in Hv as (xv & <- & Hxv).
       destruct (build_runs_items sorted rn xv Hrn) as (e & He & Hsnd); [rewrite Hs; exact Hxv|].
       exists (fst e). rewrite <- Hsnd. destruct e. eapply Permutation_in; [exact Hp|exact He].
+    - rewrite map_length. cbn [length] in *. lia.
   Qed.
 End Shape.
 
@@ -99,7 +103,7 @@ Proof.
   split; [exact Hc1|]. split; [exact Hc2|]. split.
   - apply Forall_forall. intros s Hs. apply S1 in Hs. split; [apply (Hwf s Hs)|apply (Hval s Hs)].
   - apply Forall_forall. intros [[f l] vals] Hr.
-    destruct (compress_range_shape text tu_link tu_vals es f l vals Hwf0 Hr) as (k & a & b & vs & -> & -> & Hab & -> & Hvs).
+    destruct (compress_range_shape text tu_link tu_vals es f l vals Hwf0 Hr) as (k & a & b & vs & -> & -> & Hab & -> & Hvs & Hlen256).
     unfold trange_full_wf. split; [|split; [|split]].
     + rewrite !app_length. reflexivity.
     + destruct k; discriminate.
@@ -132,18 +136,36 @@ Proof.
   - apply sort_by_perm.
 Qed.
 
+Lemma tu_vals_length vs : (length (tu_vals vs) <= length vs)%nat.
+Proof. unfold tu_vals. destruct (needs_list vs); [lia|]. destruct vs; cbn; lia. Qed.
+
+(* a range built by NewToUnicodeFile varies only the last byte: at most 256 codes, at most 256 values *)
+Lemma new_tounicode_lists csr es :
+  wf_entries text es ->
+  Forall (fun r : trange => (length (snd r) <= 256)%nat) (t_ranges (new_tounicode_bytes csr es)).
+Proof.
+  intros Hwf. unfold new_tounicode_bytes. cbn [t_ranges]. apply Forall_forall. intros [[f l] vals] Hr.
+  destruct (compress_range_shape text tu_link tu_vals es f l vals Hwf Hr) as (k & a & b & vs & _ & _ & _ & -> & _ & Hlen).
+  cbn [snd]. pose proof (tu_vals_length vs). lia.
+Qed.
+
+Lemma new_tounicode_lists_ok csr es : wf_entries text es -> lists_ok (t_ranges (new_tounicode_bytes csr es)).
+Proof.
+  intros Hwf. unfold lists_ok. eapply Forall_impl; [|apply new_tounicode_lists; exact Hwf]. cbn beta. intros r H. lia.
+Qed.
+
 Lemma embed_extract_tu_lemma csr es name pn p :
   csr_ok csr -> NoDup (map fst es) -> wf_entries text es -> tu_values_valid es ->
-  blocks_depth_ok (t_ranges (new_tounicode_bytes csr es)) ->
   exists t', read_tokens_tu (write_tokens_tu (ttext_of name pn (new_tounicode_bytes csr es))) = Some t' /\
     tt_parent t' = pn /\
     (forall s, in_csr (tt_csr t') s = in_csr csr s) /\
     (forall c, lookup_tu (tfile_of t' p) c = lookup_tu (with_parent (new_tounicode_bytes csr es) p) c) /\
     Permutation (raw_all_tu (tfile_of t' p)) (raw_all_tu (with_parent (new_tounicode_bytes csr es) p)).
 Proof.
-  intros Hc Hnd Hwf Hval Hd.
+  intros Hc Hnd Hwf Hval.
   exists (normalize_t (ttext_of name pn (new_tounicode_bytes csr es))). split; [|split; [|split; [|split]]].
-  - apply tounicode_text_rt_lemma; [apply new_tounicode_wf; assumption|exact Hd].
+  - apply tounicode_text_rt_lemma; [apply new_tounicode_wf; assumption|].
+    cbn [ttext_of tt_ranges]. apply new_tounicode_lists_ok. assumption.
   - reflexivity.
   - intros s. cbn [normalize_t tt_csr ttext_of]. apply in_csr_perm. apply sort_by_perm.
   - intros c. apply tu_lookup_after; assumption.
@@ -171,7 +193,7 @@ Proof.
     unfold wf_entries in K2'. unfold cid_ok in K3'. rewrite Forall_forall in K2', K3'.
     split; [apply (K2' s Hs)|apply (K3' s Hs)].
   - apply Forall_forall. intros r Hr. apply in_map_iff in Hr as ([[f0 l0] vals] & <- & Hr).
-    destruct (compress_range_shape N cid_link cid_vals (kept_cid f es) f0 l0 vals K2 Hr) as (k & a & b & vs & -> & -> & Hab & -> & Hvs).
+    destruct (compress_range_shape N cid_link cid_vals (kept_cid f es) f0 l0 vals K2 Hr) as (k & a & b & vs & -> & -> & Hab & -> & Hvs & Hlen256).
     destruct (compress_cid_singletons (kept_cid f es) K3 _ Hr) as (v & Hv & Hlt). cbn [snd] in Hv.
     unfold to_crange. rewrite Hv. cbn [hd]. unfold crange_full_wf. split; [|split; [|split]].
     + rewrite !app_length. reflexivity.
@@ -269,37 +291,49 @@ Proof.
 Qed.
 
 (* ======================================================================== *)
-(* the operand stack: a well-formed ToUnicode file the reader refuses          *)
+(* the operand stack (F48)                                                      *)
 
-(* 99 ranges <kk00>-<kk01> with two values each, then <6300>-<63c8> with 201 values: entry 99 of the block
-   needs 3*99 + 3 + 201 = 501 operands *)
+(* 99 ranges <kk00>-<kk01> with two values each, then <6300>-<63c8> with 201 values: as entry 99 of one block
+   (the writer BEFORE the F48 repair) it needs 3*99 + 3 + 201 = 501 operands *)
 Definition deep_ranges : list trange :=
   map (fun k => ([N.of_nat k; 0], [N.of_nat k; 1], [[65]; [67]])) (seq 0 99)
   ++ [([99; 0], [99; 200], repeat [65] 201)].
 
 Definition deep_text : ttext := TText [78] None [([0; 0], [255; 255])] [] deep_ranges.
 
-Lemma deep_text_wf : wf_ttext deep_text.
+Lemma deep_text_wf : wf_ttext deep_text /\ lists_ok (tt_ranges deep_text).
 Proof.
-  unfold wf_ttext, deep_text. cbn [tt_csr tt_singles tt_ranges]. repeat split.
-  - cbn. lia.
-  - repeat constructor; cbn; try discriminate.
-  - constructor.
-  - unfold deep_ranges. apply Forall_app. split.
-    + apply Forall_forall. intros r Hr. apply in_map_iff in Hr as (k & <- & _).
+  assert (W : Forall trange_full_wf deep_ranges /\ lists_ok deep_ranges).
+  { unfold deep_ranges, lists_ok. split; apply Forall_app; split.
+    - apply Forall_forall. intros r Hr. apply in_map_iff in Hr as (k & <- & _).
       unfold trange_full_wf. repeat split; try discriminate.
-      * unfold bytes_leb. cbn [bytes_ltb]. rewrite N.ltb_irrefl, N.eqb_refl. reflexivity.
-      * repeat constructor.
-    + constructor; [|constructor]. unfold trange_full_wf. repeat split; try discriminate.
+      + unfold bytes_leb. cbn [bytes_ltb]. rewrite N.ltb_irrefl, N.eqb_refl. reflexivity.
+      + repeat constructor.
+    - constructor; [|constructor]. unfold trange_full_wf. repeat split; try discriminate.
       apply Forall_forall. intros v Hv. apply repeat_spec in Hv. subst. repeat constructor.
+    - apply Forall_forall. intros r Hr. apply in_map_iff in Hr as (k & <- & _). cbn. lia.
+    - constructor; [|constructor]. cbn [snd]. rewrite repeat_length. lia. }
+  destruct W as [W1 W2]. split; [|exact W2].
+  unfold wf_ttext, deep_text. cbn [tt_csr tt_singles tt_ranges]. split; [cbn; lia|]. split; [|split; [constructor|exact W1]].
+  repeat constructor; cbn; try discriminate.
 Qed.
 
-Lemma deep_text_refused : read_tokens_tu (write_tokens_tu deep_text) = None.
+Lemma deep_text_prefix_refused : read_tokens_tu (write_tokens_tu_prefix deep_text) = None.
 Proof. vm_compute. reflexivity. Qed.
 
-Lemma tounicode_text_refuted :
-  exists t, wf_ttext t /\ read_tokens_tu (write_tokens_tu t) <> Some (normalize_t t).
-Proof. exists deep_text. split; [apply deep_text_wf|]. rewrite deep_text_refused. discriminate. Qed.
+Lemma tounicode_text_prefix_refuted :
+  exists t, wf_ttext t /\ lists_ok (tt_ranges t) /\ read_tokens_tu (write_tokens_tu_prefix t) <> Some (normalize_t t).
+Proof.
+  exists deep_text. destruct deep_text_wf as [H1 H2]. split; [exact H1|]. split; [exact H2|].
+  rewrite deep_text_prefix_refused. discriminate.
+Qed.
+
+(* beyond 497 values in one range even a block of its own does not fit (3 + 498 > 500); NewToUnicodeFile never
+   builds such a range (new_tounicode_lists) *)
+Definition long_list_text : ttext := TText [78] None [([0; 0], [255; 255])] [] [([0; 0], [1; 255], repeat [65] 498)].
+
+Lemma long_list_refused : read_tokens_tu (write_tokens_tu long_list_text) = None.
+Proof. vm_compute. reflexivity. Qed.
 
 (* ======================================================================== *)
 (* the byte level, under the tokenizer hypothesis                              *)
@@ -325,7 +359,7 @@ Section Tokenizer.
   Qed.
 
   Lemma tounicode_bytes_rt_lemma t :
-    wf_ttext t -> blocks_depth_ok (tt_ranges t) -> read_bytes_tu (write_bytes_tu t) = Some (normalize_t t).
+    wf_ttext t -> lists_ok (tt_ranges t) -> read_bytes_tu (write_bytes_tu t) = Some (normalize_t t).
   Proof.
     intros H Hd. unfold read_bytes_tu, write_bytes_tu. rewrite tokenize_print_tu by assumption.
     apply tounicode_text_rt_lemma; assumption.
@@ -351,14 +385,13 @@ Definition tu_data_valid (data : list (N * text)) : Prop := Forall (fun d => val
 
 Lemma embed_extract_tu_codes csr data name pn p :
   csr_ok csr -> prefix_free csr -> tu_data_ok csr data -> tu_data_valid data ->
-  blocks_depth_ok (t_ranges (new_tounicode csr data)) ->
   exists t', read_tokens_tu (write_tokens_tu (ttext_of name pn (new_tounicode csr data))) = Some t' /\
     tt_parent t' = pn /\
     (forall s, in_csr (tt_csr t') s = in_csr csr s) /\
     (forall c, lookup_tu (tfile_of t' p) c = lookup_tu (with_parent (new_tounicode csr data) p) c) /\
     Permutation (raw_all_tu (tfile_of t' p)) (raw_all_tu (with_parent (new_tounicode csr data) p)).
 Proof.
-  intros Hc Hpf (H1 & H2) Hv Hd. destruct (code_entries_ok csr data Hpf H1 H2) as (G1 & G2 & _).
+  intros Hc Hpf (H1 & H2) Hv. destruct (code_entries_ok csr data Hpf H1 H2) as (G1 & G2 & _).
   apply embed_extract_tu_lemma; auto.
   unfold tu_values_valid, tu_data_valid, code_entries in *. rewrite Forall_forall in *.
   intros e He. apply in_map_iff in He as (d & <- & Hd'). cbn [snd]. auto.
